@@ -92,6 +92,8 @@ class Encoder:
                 out.append(v > z3.RealVal(str(lo)))
                 out.append(v < z3.RealVal(str(hi)))
             return out
+        if info.get("domain") is not None:
+            out.append(z3.Or([v == z3.RealVal(str(Fraction(dv))) for dv in info["domain"]]))
         if info.get("positive"):
             out.append(v > 0)
         if info.get("nonneg"):
@@ -116,7 +118,11 @@ class Encoder:
         return out
 
     def assumptions(self):
-        return [self.rel(op, s) for op, s in self.ctx.assumptions]
+        out = [self.rel(op, s) for op, s in self.ctx.assumptions]
+        if self.ctx.cond_assumptions:
+            from .executor import _cond_z3
+            out += [_cond_z3(c, self) for c in self.ctx.cond_assumptions]
+        return out
 
 
 def _model_env(model, enc):
